@@ -1,7 +1,7 @@
 """Reference encoder: Atmel AVR, from the "AVR Instruction Set" manual (doc0856).
 
 Devices: AT90S8515 (classic core: no MUL/MOVW/JMP/CALL/extended LPM), ATmega8 (adds MUL*, FMUL*, MOVW, LPM Rd,Z(+), SPM),
-ATmega16 (adds JMP/CALL).  The code segment is word-addressed (AS default codesegsize=1); numbers in C syntax as in the
+ATmega16 (adds JMP/CALL), ATmega2560 (22-bit program counter: JMP/CALL beyond 64K words, EIJMP/EICALL).  The code segment is word-addressed (AS default codesegsize=1); numbers in C syntax as in the
 golden test t_avr."""
 from .isa_common import Form, Int, Rel, Choice
 
@@ -10,8 +10,8 @@ UNIT = 2
 PCSYM = '*'
 ORG = 0x20
 SPACE = (0, 0xfff)
-SPACE_OF = {'at90s8515': (0, 0xfff), 'atmega8': (0, 0xfff), 'atmega16': (0, 0x1fff)}
-CPUS = ('at90s8515', 'atmega8', 'atmega16')
+SPACE_OF = {'at90s8515': (0, 0xfff), 'atmega8': (0, 0xfff), 'atmega16': (0, 0x1fff), 'atmega2560': (0, 0x1ffff)}
+CPUS = ('at90s8515', 'atmega8', 'atmega16', 'atmega2560')
 HDR = 0x3b
 SLICE = 12
 SLICE_THOROUGH = 3
@@ -120,10 +120,18 @@ def forms(cpu):
         add('lpm {0},z', [R()], lambda v, pc: [0x9004 | v[0] << 4])
         add('lpm {0},z+', [R()], lambda v, pc: [0x9005 | v[0] << 4])
         add('spm', [], [0x95e8])
-    if cpu == 'atmega16':
-        # 22-bit word address; the device has 8K words of flash, targets are kept inside it
+    if cpu in ('atmega16', 'atmega2560'):
+        # JMP/CALL: 1001 010k kkkk 11(0|1)k + 16 bits, k = 22-bit word address.  Targets are kept inside the device's flash
+        # (ATmega16: 8K words; ATmega2560: 128K words, so address bits 16 of the first word are exercised: 0ffffh, 10000h,
+        # 10001h, 1ffffh).  Rejection is demanded for the first address beyond the flash of the ATmega2560 (20000h) and for
+        # 400000h (beyond the 22-bit field) on the ATmega16, whose smaller limit the manual does not state.
         lim = SPACE_OF[cpu][1]
+        big = cpu == 'atmega2560'
         for m, op in (('jmp', 0x940c), ('call', 0x940e)):
-            add(m + ' {0}', [Int(0, lim, err_lo=False, name='addr22', ehi=1 << 22)],
+            add(m + ' {0}', [Int(0, lim, err_lo=False, name='addr22', ehi=lim + 1 if big else 1 << 22,
+                                 edges=(0xffff, 0x10000, 0x10001, 0x1fffe) if big else ())],
                 lambda v, pc, op=op: [op | (v[0] >> 17 & 0x1f) << 4 | v[0] >> 16 & 1, v[0] & 0xffff])
+    if cpu == 'atmega2560':
+        add('eijmp', [], [0x9419])
+        add('eicall', [], [0x9519])
     return F
